@@ -746,136 +746,157 @@ Definition callee_is_expr (call : node) : bool :=
   | None => false
   end.
 
+Definition is_op (view : node -> option string) (op : string) (n : node) : bool :=
+  match view n with Some o => String.eqb o op | None => false end.
+
+(** The arms of [visit_mut_expr] / the overridden struct visitors, as a classification of the node. *)
+Inductive opclass := OBlock | OIdent | OBin | OAssign | OTpl | OCall | OOptChain | OUnary | OArrow | OOther.
+
+Definition classify (n : node) : opclass :=
+  match n with
+  | Node (K KBlock _ _) _ => OBlock
+  | Node (K KIdent _ _) _ => OIdent
+  | Node (K KBin _ _) _ => OBin
+  | Node (K KAssign _ _) _ => OAssign
+  | Node (K KTpl _ _) _ => OTpl
+  | Node (K KCall _ _) _ => OCall
+  | Node (K KOptChain _ _) _ => OOptChain
+  | Node (K KUnary _ _) _ => OUnary
+  | Node (K KArrow _ _) _ => OArrow
+  | _ => OOther
+  end.
+
+(** Default traversal of a struct: visit every child with [rec]; two fields are not Expr positions
+    although they hold expression-like nodes: TaggedTpl.tpl and OptChainExpr.base. *)
+Definition default_visit_with (rec : node -> ostate -> option (node * ostate)) (n : node) (s : ostate)
+  : option (node * ostate) :=
+  match n with
+  | Node (K KTaggedTpl lo hi) [cx; tg; tp; Node tplt tplcs] =>
+      match map_st rec [cx; tg; tp] s with
+      | Some ([cx'; tg'; tp'], s1) =>
+          match map_st rec tplcs s1 with
+          | Some (tplcs', s2) =>
+              Some (Node (K KTaggedTpl lo hi) [cx'; tg'; tp'; Node tplt tplcs'], s2)
+          | None => None
+          end
+      | _ => None
+      end
+  | Node (K KOptChain lo hi) [opt; Node bt bcs] =>
+      match map_st rec bcs s with
+      | Some (bcs', s1) => Some (Node (K KOptChain lo hi) [opt; Node bt bcs'], s1)
+      | None => None
+      end
+  | Node t cs =>
+      match map_st rec cs s with
+      | Some (cs', s') => Some (Node t cs', s')
+      | None => None
+      end
+  end.
+
+(** `x.visit_mut_children_with(self)` on an enum value: the struct behind it is visited with its
+    own (possibly overridden) method, the enum-level override is skipped. *)
+Definition struct_level_with (c : config) (rec : node -> ostate -> option (node * ostate))
+           (n : node) (s : ostate) : option (node * ostate) :=
+  match classify n with
+  | OIdent => Some (n, o_with_p (register_variable c n (o_p s)) s)
+  | OBlock => Some (n, s)
+  | _ => default_visit_with rec n s
+  end.
+
+(** The node's own transformation, applied after its children ([n1] has rewritten children). *)
+Definition bin_step (c : config) (n1 : node) (s1 : ostate) : node * ostate :=
+  if is_op bin_op "+" n1 then
+    let '(r, p2) := binary_transform c n1 (o_p s1) in
+    let s2 := o_with_p p2 s1 in
+    match r with
+    | Some e' => (e', o_update c Modified (Some gen_ADD_TAG) s2)
+    | None => (n1, o_update c NotModified (Some gen_ADD_TAG) s2)
+    end
+  else (n1, s1).
+
+Definition assign_step (c : config) (n1 : node) (s1 : ostate) : node * ostate :=
+  if is_op assign_op "+=" n1 then
+    let '(r, p2) := assign_transform c n1 (o_p s1) in
+    let s2 := o_with_p p2 s1 in
+    match r with
+    | Some e' => (e', o_update c Modified (Some gen_ADD_ASSIGN_TAG) s2)
+    | None => (n1, o_update c NotModified (Some gen_ADD_ASSIGN_TAG) s2)
+    end
+  else (n1, s1).
+
+Definition tpl_step (c : config) (n1 : node) (s1 : ostate) : node * ostate :=
+  let '(r, p2) := template_transform c n1 (o_p s1) in
+  let s2 := o_with_p p2 s1 in
+  match r with
+  | Some e' => (e', o_update c Modified (Some gen_TPL_TAG) s2)
+  | None => (n1, o_update c NotModified (Some gen_TPL_TAG) s2)
+  end.
+
+Definition call_step (c : config) (n1 : node) (s1 : ostate) : node * ostate :=
+  if callee_is_expr n1 then
+    let '(r, p2) := call_transform c n1 (o_p s1) in
+    let s2 := o_with_p p2 s1 in
+    match r with
+    | Some (e', tag) => (e', o_update c Modified (Some tag) s2)
+    | None => (n1, s2)
+    end
+  else (n1, s1).
+
+Definition finish (root : bool) (r : node * ostate) : option (node * ostate) :=
+  Some (fst r, o_leave root (snd r)).
+
 Fixpoint op_visit (c : config) (fuel : nat) (root : bool) (n : node) (s : ostate) {struct fuel}
   : option (node * ostate) :=
   match fuel with
   | 0 => None
   | Datatypes.S f =>
-      (* default traversal of a struct: visit every child; two fields are not Expr positions
-         although they hold expression-like nodes: TaggedTpl.tpl and OptChainExpr.base *)
-      let default_visit (root : bool) (n : node) (s : ostate) :=
-        match n with
-        | Node (K KTaggedTpl lo hi) [cx; tg; tp; Node tplt tplcs] =>
-            match map_st (op_visit c f root) [cx; tg; tp] s with
-            | Some ([cx'; tg'; tp'], s1) =>
-                match map_st (op_visit c f root) tplcs s1 with
-                | Some (tplcs', s2) =>
-                    Some (Node (K KTaggedTpl lo hi) [cx'; tg'; tp'; Node tplt tplcs'], s2)
-                | None => None
-                end
-            | _ => None
-            end
-        | Node (K KOptChain lo hi) [opt; Node bt bcs] =>
-            match map_st (op_visit c f root) bcs s with
-            | Some (bcs', s1) => Some (Node (K KOptChain lo hi) [opt; Node bt bcs'], s1)
-            | None => None
-            end
-        | Node t cs =>
-            match map_st (op_visit c f root) cs s with
-            | Some (cs', s') => Some (Node t cs', s')
-            | None => None
-            end
-        end in
-      (* `x.visit_mut_children_with(self)` on an enum value: the struct behind it is visited with
-         its own (possibly overridden) method, the enum-level override is skipped *)
-      let struct_level (root : bool) (n : node) (s : ostate) :=
-        match n with
-        | Node (K KIdent _ _) _ => Some (n, o_with_p (register_variable c n (o_p s)) s)
-        | Node (K KBlock _ _) _ => Some (n, s)
-        | _ => default_visit root n s
-        end in
-      match n with
-      | Node (K KBlock _ _) _ => Some (n, s)              (* visit_mut_block_stmt: nested blocks are skipped *)
-      | Node (K KIdent _ _) _ => Some (n, o_with_p (register_variable c n (o_p s)) s)
-      | Node (K KBin _ _) _ =>
+      match classify n with
+      | OBlock => Some (n, s)              (* visit_mut_block_stmt: nested blocks are skipped *)
+      | OIdent => Some (n, o_with_p (register_variable c n (o_p s)) s)
+      | OBin =>
           if plus_enabled c then
-            match default_visit false n s with
-            | Some (n1, s1) =>
-                let s3 :=
-                  match bin_op n1 with
-                  | Some "+" =>
-                      let '(r, p2) := binary_transform c n1 (o_p s1) in
-                      let s2 := o_with_p p2 s1 in
-                      match r with
-                      | Some e' => (e', o_update c Modified (Some gen_ADD_TAG) s2)
-                      | None => (n1, o_update c NotModified (Some gen_ADD_TAG) s2)
-                      end
-                  | _ => (n1, s1)
-                  end in
-                Some (fst s3, o_leave root (snd s3))
+            match default_visit_with (op_visit c f false) n s with
+            | Some (n1, s1) => finish root (bin_step c n1 s1)
             | None => None
             end
-          else default_visit root n s
-      | Node (K KAssign _ _) _ =>
+          else default_visit_with (op_visit c f root) n s
+      | OAssign =>
           if plus_enabled c then
-            match default_visit false n s with
-            | Some (n1, s1) =>
-                let s3 :=
-                  match assign_op n1 with
-                  | Some "+=" =>
-                      let '(r, p2) := assign_transform c n1 (o_p s1) in
-                      let s2 := o_with_p p2 s1 in
-                      match r with
-                      | Some e' => (e', o_update c Modified (Some gen_ADD_ASSIGN_TAG) s2)
-                      | None => (n1, o_update c NotModified (Some gen_ADD_ASSIGN_TAG) s2)
-                      end
-                  | _ => (n1, s1)
-                  end in
-                Some (fst s3, o_leave root (snd s3))
+            match default_visit_with (op_visit c f false) n s with
+            | Some (n1, s1) => finish root (assign_step c n1 s1)
             | None => None
             end
-          else default_visit root n s
-      | Node (K KTpl _ _) _ =>
+          else default_visit_with (op_visit c f root) n s
+      | OTpl =>
           if tpl_enabled c then
             if tpl_instrumentable n then
-              match default_visit false n s with
-              | Some (n1, s1) =>
-                  let '(r, p2) := template_transform c n1 (o_p s1) in
-                  let s2 := o_with_p p2 s1 in
-                  let s3 :=
-                    match r with
-                    | Some e' => (e', o_update c Modified (Some gen_TPL_TAG) s2)
-                    | None => (n1, o_update c NotModified (Some gen_TPL_TAG) s2)
-                    end in
-                  Some (fst s3, o_leave root (snd s3))
+              match default_visit_with (op_visit c f false) n s with
+              | Some (n1, s1) => finish root (tpl_step c n1 s1)
               | None => None
               end
             else Some (n, s)          (* not descended at all *)
-          else default_visit root n s
-      | Node (K KCall _ _) _ =>
-          match default_visit false n s with
-          | Some (n1, s1) =>
-              let s3 :=
-                if callee_is_expr n1 then
-                  let '(r, p2) := call_transform c n1 (o_p s1) in
-                  let s2 := o_with_p p2 s1 in
-                  match r with
-                  | Some (e', tag) => (e', o_update c Modified (Some tag) s2)
-                  | None => (n1, s2)
-                  end
-                else (n1, s1) in
-              Some (fst s3, o_leave root (snd s3))
+          else default_visit_with (op_visit c f root) n s
+      | OCall =>
+          match default_visit_with (op_visit c f false) n s with
+          | Some (n1, s1) => finish root (call_step c n1 s1)
           | None => None
           end
-      | Node (K KOptChain _ _) _ =>
+      | OOptChain =>
           match optchain_transform c f n (o_p s) with
           | Some (n1, modified, p1) =>
-              let s1 := o_with_p p1 s in
-              let s2 := s1 in   (* the guard alone does not update the status *)
-              (* expr.visit_mut_children_with: the struct behind the (possibly new) expression *)
-              match struct_level false n1 s2 with
+              (* the guard alone does not update the status;
+                 expr.visit_mut_children_with: the struct behind the (possibly new) expression *)
+              match struct_level_with c (op_visit c f false) n1 (o_with_p p1 s) with
               | Some (n2, s3) => Some (n2, o_leave root s3)
               | None => None
               end
           | None => None
           end
-      | Node (K KUnary _ _) _ =>
-          match unary_op n with
-          | Some "delete" => Some (n, s)
-          | _ => default_visit root n s
-          end
-      | Node (K KArrow _ _) _ => Some (arrow_transform n, s)   (* not descended *)
-      | _ => default_visit root n s
+      | OUnary =>
+          if is_op unary_op "delete" n then Some (n, s)
+          else default_visit_with (op_visit c f root) n s
+      | OArrow => Some (arrow_transform n, s)   (* not descended *)
+      | OOther => default_visit_with (op_visit c f root) n s
       end
   end.
 
